@@ -490,6 +490,12 @@ class FitBase(FileIOMixin, object):
             raise ValueError("Fit data and cost function are not compatible: %s" % _reason)
         self._set_new_parametric_model()
         self._param_model._on_error_change_callback = self._on_error_change
+        # the new containers bring their own uncertainties: cached error nodes and minimizer state are outdated
+        self._fitter.reset_minimizer()
+        for _error_name in self._BASIC_ERROR_NAMES:
+            self._nexus.get(_error_name).mark_for_update()
+        if self._cost_function_pointwise is not None:
+            self._fitter.parameter_to_minimize = self._cost_function.name
 
     @property
     def data_error(self):
